@@ -441,6 +441,17 @@ func (s *Stored) contentKey() string {
 	return fmt.Sprintf("%q|%q|%d|%s|%s|%s", s.Name, s.NS, s.TS, tagsKey(s.Tags), fieldsKey(s.Fields), histKey(s.Hist))
 }
 
+// crossKey is the content key used to compare two SEPARATE evaluations of one metric (another tag order,
+// another encoding): for clock-relative timestamps ("now", window edges, family start) every evaluation
+// resolves its own timestamp from the clock, so the timestamps legitimately differ by the time that passed
+// between the two evaluations - each one is checked against the timestamp it sent by checkStored.
+func (s *Stored) crossKey(tsBase string) string {
+	if tsBase == "abs" {
+		return s.contentKey()
+	}
+	return fmt.Sprintf("%q|%q|<clock-relative>|%s|%s|%s", s.Name, s.NS, tagsKey(s.Tags), fieldsKey(s.Fields), histKey(s.Hist))
+}
+
 // checkStored compares a stored row with what was sent; ts is the resolved timestamp that was sent
 // (0 = "now" substituted by the code: tsLo..tsHi is then the admissible interval).
 // It returns the first difference ("" = equal) and the oracle clause it belongs to.
